@@ -71,5 +71,5 @@ def load():
         if main not in files:
             continue
         programs.append({"name": relative, "main": main, "files": files, "expected": expected[relative],
-                         "stdin": STDIN.get(relative, [])})
+                         "stdin": STDIN.get(relative, []), "heavy": len(files[main]) > 100000})
     return programs
